@@ -625,6 +625,10 @@ def c20(res, tier, deadline):
         variants.append(("ud_%d_%d_%d_two" % (a, b, c_),
                          ["UD_L1=%d" % a, "UD_L2=%d" % b, "UD_L3=%d" % c_, "HASMETHOD=0", "TWOMETHODS=1"],
                          "lists %dx%dx%d two methods in the product, shared definition functions, all subsets" % (a, b, c_)))
+    for (a, b, c_) in ((2, 2, 0), (3, 0, 0)):
+        variants.append(("ud_%d_%d_%d_mplist" % (a, b, c_),
+                         ["UD_L1=%d" % a, "UD_L2=%d" % b, "UD_L3=%d" % c_, "HASMETHOD=0", "OUTERLIST=1"],
+                         "lists %dx%dx%d, the method list is an mp_list, all subsets" % (a, b, c_)))
     large = [(23, 23)] if tier == "quick" else [(7, 73), (16, 32), (19, 27), (23, 23), (25, 41)]
     patterns = [0, 7, 4] if tier == "quick" else [0, 1, 2, 3, 4, 5, 6, 7]
     for (a, b) in large:
